@@ -2,6 +2,8 @@
 // Generators: (a) hashed streams of typed values whose length sweeps every flavor boundary and many
 // window shifts; (b) synthetic (row, col) coupons fed through row_col_update() in a realistic arrival
 // order so that window offsets up to 56 are reached; (c) sparse-only smoke cases for lg_k 20 and 26.
+// (d) row-clustered coupon sets (narrow band of rows + one far outlier) so that the image's pair coder sees
+// row deltas of 255/256/257/.../512+ Golomb units, in all four table-bearing flavors.
 // Oracle: independent model = set of (row, col) pairs derived from the reference MurmurHash3.
 #include "vf/c05_cpc.hpp"
 
@@ -165,6 +167,135 @@ static void synthetic(Rng& r, bool T) {
   if (want_sample()) sample("{\"config\":" + jstr(G().cur_desc) + ",\"final_C\":" + std::to_string(L.m.C) + ",\"final_offset\":" + std::to_string(L.sk->window_offset) + "}");
 }
 
+// ---------------------------------------------------------------- (d) row-clustered coupon sets
+// The image stores a row-sorted pair list with Golomb-coded row deltas.  Uniformly hashed streams only
+// ever produce small deltas, so here the listed pairs are concentrated in a narrow band of rows with one
+// far outlier placed an exact number of Golomb units (255, 256, 257, ... 512, ...) away.  Sparse and hybrid
+// flavors: either real keys rejection-sampled by their reference-hash row, or synthetic coupons;
+// pinned and sliding: synthetic matrices whose surprising values (the listed pairs) are clustered.
+static unsigned geometric(Rng& r, unsigned cap) { unsigned g = 0; while (g < cap && r.coin()) ++g; return g; }
+
+static void clustered(Rng& r, bool T) {
+  Live L;
+  const int mode = static_cast<int>(r.below(4));        // 0 sparse, 1 hybrid, 2 pinned, 3 sliding
+  const bool hashed = mode <= 1 && r.chance(0.5);
+  uint8_t lg_k;
+  if (mode == 0) lg_k = static_cast<uint8_t>(r.range(12, T ? 16 : 14));
+  else if (mode == 1) lg_k = static_cast<uint8_t>(r.range(10, T ? 16 : 14));
+  else lg_k = static_cast<uint8_t>(r.range(10, T ? 14 : 13));
+  L.seed = hashed && r.chance(0.4) ? r.next() : DEFAULT_SEED;
+  L.m = Model(lg_k);
+  L.sk.reset(new cpc_sketch(lg_k, L.seed));
+  const uint64_t k = uint64_t(1) << lg_k;
+  // number of listed pairs P (> 256 is needed for a delta of 256 units to fit into k rows)
+  uint64_t pmin = 310, pmax;
+  if (mode == 0) pmax = (3 * k + 31) / 32 - 2;
+  else if (mode == 1) { pmin = std::max<uint64_t>(pmin, (3 * k + 31) / 32 + 1); pmax = k / 2 - 3; }
+  else pmax = 1200;
+  pmax = std::min<uint64_t>({pmax, 1500, 3 * (k / 4) / 2});
+  if (pmin > pmax) pmin = pmax;
+  const uint64_t P = pmin + r.below(pmax - pmin + 1);
+  // band of rows: narrow, but wide enough to hold P distinct pairs with plausible columns
+  uint64_t bw = k / 4;
+  { std::vector<uint64_t> c; for (uint64_t x : {k / 16, k / 8, k / 4}) if (3 * x / 2 >= P) c.push_back(x); if (!c.empty()) bw = c[r.below(c.size())]; }
+  uint64_t r0;
+  switch (r.below(3)) { case 0: r0 = r.below(k / 16 + 1); break; case 1: r0 = k - bw - r.below(k / 16 + 1); break; default: r0 = r.below(k - bw + 1); }
+  const unsigned w = mode == 3 ? static_cast<unsigned>(r.range(1, lg_k >= 13 ? 6 : (T ? 24 : 10))) : 0;
+  const unsigned late0 = mode == 2 ? 8 : (mode == 3 ? w + 8 : 0);   // first column right of the window
+  describe(std::string("clustered ") + flavor_name(static_cast<Flavor>(mode + 1)) + (hashed ? " hashed" : " synthetic") + " lg_k=" + std::to_string(lg_k) +
+           " seed=" + std::to_string(L.seed) + " P=" + std::to_string(P) + " band=[" + std::to_string(r0) + "," + std::to_string(r0 + bw) + ") w=" + std::to_string(w));
+  // --- the listed pairs inside the band
+  std::set<uint32_t> listed;
+  std::vector<Val> keys;       // hashed feed
+  const int kind = r.pick({int(V_U64), int(V_I64), int(V_F64), int(V_STR), int(V_BYTES)});
+  uint64_t zeros_wanted = mode == 3 ? r.below(P + 1) : 0;            // sliding: surprising zeros left of the window
+  if (mode == 3 && zeros_wanted > bw * w / 2) zeros_wanted = bw * w / 2;
+  uint64_t guard = 0;
+  while (listed.size() < P && ++guard < 4000000) {
+    if (hashed) {
+      const Val v = gen_val(r, uint64_t(1) << 44, kind);
+      if (v.ignored()) continue;
+      const uint32_t rc = ref_row_col(v.ref_hash(L.seed), lg_k);
+      const uint64_t row = rc >> 6;
+      if (row < r0 || row >= r0 + bw) continue;
+      if (listed.insert(rc).second) keys.push_back(v);
+    } else {
+      const uint32_t row = static_cast<uint32_t>(r0 + r.below(bw));
+      unsigned col;
+      if (mode == 3 && listed.size() < zeros_wanted) col = static_cast<unsigned>(r.below(w));
+      else col = std::min(63u, late0 + geometric(r, 30));
+      listed.insert((row << 6) | col);
+    }
+  }
+  // --- one outlier an exact number of Golomb units away from the band (above it if it fits, else below, else as far as possible)
+  uint32_t rmin = UINT32_MAX, rmax = 0;
+  for (uint32_t rc : listed) { rmin = std::min(rmin, rc >> 6); rmax = std::max(rmax, rc >> 6); }
+  const uint64_t q = k / (listed.size() + 1);
+  const unsigned b = q ? floor_log2_u64(q) : 0;
+  const uint64_t g = r.pick<uint64_t>({255, 256, 257, 263, 264, 272, 300, 511, 512, 513, 768, 100000});
+  const uint64_t delta = (g << b) + r.below(uint64_t(1) << b);
+  uint64_t row_out;
+  if (rmax + delta < k) row_out = rmax + delta;
+  else if (rmin >= delta) row_out = rmin - delta;
+  else row_out = (k - 1 - rmax >= rmin) ? k - 1 : 0;
+  bool have_outlier = false;
+  if (hashed) {
+    for (uint64_t tries = 0; tries < 60 * k && !have_outlier; ++tries) {
+      const Val v = gen_val(r, uint64_t(1) << 44, kind);
+      if (v.ignored()) continue;
+      const uint32_t rc = ref_row_col(v.ref_hash(L.seed), lg_k);
+      if ((rc >> 6) == row_out) { listed.insert(rc); keys.push_back(v); have_outlier = true; }
+    }
+  } else {
+    unsigned col = (mode == 3 && r.coin()) ? static_cast<unsigned>(r.below(w)) : std::min(63u, late0 + geometric(r, 30));
+    listed.insert((static_cast<uint32_t>(row_out) << 6) | col);
+    have_outlier = true;
+  }
+  if (have_outlier) count("clustered_with_outlier");
+  // --- feed
+  const char* pfx = hashed ? "stream" : "synthetic";
+  if (hashed) {
+    r.shuffle(keys);
+    const size_t every = keys.size() / 3 + 1;
+    for (size_t i = 0; i < keys.size(); ++i) {
+      feed(*L.sk, L.m, keys[i], L.seed);
+      if ((i + 1) % every == 0) checkpoint(L, r, pfx, "clustered i=" + std::to_string(i), 1.0, true);
+    }
+    count("clustered_hashed");
+  } else {
+    // cells of the whole matrix, fed roughly column by column (as a real stream fills them)
+    struct Cell { double key; uint32_t rc; };
+    std::vector<Cell> cells;
+    auto put = [&](uint32_t row, unsigned col) { cells.push_back(Cell{double(col) + r.unit() * 1.5, (row << 6) | col}); };
+    if (mode <= 1) { for (uint32_t rc : listed) cells.push_back(Cell{r.unit(), rc}); }
+    else {
+      double pw[8];
+      if (mode == 2) { const double lam = 1.2 + r.unit() * 3.8; for (int j = 0; j < 8; ++j) pw[j] = 1 - std::exp(-lam / std::ldexp(1.0, j + 1)); }
+      else { const double base[8] = {0.9, 0.75, 0.55, 0.35, 0.2, 0.1, 0.05, 0.02}; for (int j = 0; j < 8; ++j) pw[j] = base[j]; }
+      for (uint32_t row = 0; row < k; ++row) {
+        for (unsigned col = 0; col < w; ++col) if (!listed.count((row << 6) | col)) put(row, col);      // left of the window: ones, except the listed zeros
+        for (unsigned j = 0; j < 8; ++j) if (r.chance(pw[j])) put(row, w + j);                          // the window
+      }
+      for (uint32_t rc : listed) if ((rc & 63) >= late0) put(rc >> 6, rc & 63);                         // listed ones right of the window
+    }
+    std::sort(cells.begin(), cells.end(), [](const Cell& a, const Cell& b2) { return a.key < b2.key || (a.key == b2.key && a.rc < b2.rc); });
+    const size_t every = cells.size() / 4 + 1;
+    for (size_t i = 0; i < cells.size(); ++i) {
+      L.sk->row_col_update(cells[i].rc);
+      L.m.add_rc(cells[i].rc);
+      if ((i + 1) % every == 0) checkpoint(L, r, pfx, "clustered fed=" + std::to_string(i + 1), 1.0, false);
+    }
+    count("clustered_synthetic");
+    count("synthetic_coupons", cells.size());
+  }
+  checkpoint(L, r, pfx, "clustered at end", 1.0, hashed);
+  // one more image after a few ordinary updates on top of the clustered state
+  for (int i = 0; i < 3; ++i) feed(*L.sk, L.m, gen_val(r, uint64_t(1) << 40, V_U64), L.seed);
+  checkpoint(L, r, pfx, "clustered + 3 hashed updates", 1.0, hashed);
+  count(std::string("clustered_final_flavor_") + flavor_name(flavor_of(lg_k, L.m.C)));
+  if (want_sample()) sample("{\"config\":" + jstr(G().cur_desc) + ",\"final_C\":" + std::to_string(L.m.C) + ",\"max_row_gap_units\":" + std::to_string(max_row_gap_units(L.m)) + "}");
+}
+
 // ---------------------------------------------------------------- (c) large lg_k, sparse flavor only
 static void big_sparse(Rng& r, uint8_t lg_k) {
   Live L;
@@ -202,6 +333,11 @@ void run_case(uint64_t idx, Rng& r) {
   if (idx == 5) { big_sparse(r, 20); return; }
   if (T && idx == 11) { big_sparse(r, 26); return; }
   if (T && idx % 1500 == 17) { big_sparse(r, static_cast<uint8_t>(r.range(17, 22))); return; }
+  if (idx % 8 == 3) {
+    try { clustered(r, T); }
+    catch (const std::exception& e) { fail("clustered|threw", G().cur_desc + " what=" + e.what()); }
+    return;
+  }
   const bool hashed = r.chance(0.62);
   try {
     if (hashed) hashed_stream(r, T); else synthetic(r, T);
